@@ -179,7 +179,25 @@ PROPS["C04"] = _link("C04", ["Toxi.Link.C04_new_link_aligned", "Toxi.Link.C04_ad
                              "Toxi.Link.C04_remove_chain", "Toxi.Link.C04_frame_links", "Toxi.Link.C04_update_restarts_one"],
                      "",
                      "toxic_collection.go (chain, Index renumbering, findToxicByName), link.go stubs vs chain alignment")
-PROPS["C01"]["lean_modules"] = PROPS["C01"]["lean_modules"] + ["Toxi.Proofs.Lemmas.Pipeline", "Toxi.Proofs.Lemmas.Quiescent"]
+PROPS["C01"]["lean_modules"] = PROPS["C01"]["lean_modules"] + ["Toxi.Proofs.Lemmas.Pipeline", "Toxi.Proofs.Lemmas.Quiescent", "Toxi.Proofs.Lemmas.Graceful"]
+PROPS["C01"]["theorems"] += ["Toxi.Link.C15_move_graceful", "Toxi.Link.C15_settle_graceful", "Toxi.Link.C15_graceful_end", "Toxi.Link.GInv_new"]
+# C02: the whole-link invariant across AddToxic / UpdateToxic / RemoveToxic (Proofs/Lemmas/Reconf.lean)
+PROPS["C02"]["lean_modules"] = PROPS["C02"]["lean_modules"] + ["Toxi.Proofs.Lemmas.Reconf"]
+PROPS["C02"]["theorems"] += ["Toxi.Link.C02_move_conserves", "Toxi.Link.C02_exec", "Toxi.Link.C02_complete", "Toxi.Link.C02_prefix",
+                             "Toxi.Link.RInv_exec", "Toxi.Link.RInv_of_LInv", "Toxi.Link.LInv_of_RInv",
+                             "Toxi.Link.r_handoff", "Toxi.Link.r_stageMove", "Toxi.Link.r_sinkMove", "Toxi.Link.r_bufferMove", "Toxi.Link.r_sourceMove",
+                             "Toxi.Link.r_ctl_add", "Toxi.Link.r_ctl_upd", "Toxi.Link.r_ctl_rmIntr", "Toxi.Link.r_ctl_rmLoop", "Toxi.Link.r_ctl_rmDrain",
+                             "Toxi.Link.r_beginAdd", "Toxi.Link.r_beginUpdate", "Toxi.Link.r_beginRemove",
+                             "Toxi.Toxic.interrupt_ok", "Toxi.Link.fire_interrupt", "Toxi.Link.Ex.exec7"]
+# C04: alignment of the stubs with the chain along every execution (Proofs/Lemmas/Aligned.lean)
+PROPS["C04"]["lean_modules"] = PROPS["C04"]["lean_modules"] + ["Toxi.Proofs.Lemmas.Aligned"]
+PROPS["C04"]["theorems"] += ["Toxi.Link.C04_exec", "Toxi.Link.t_exec", "Toxi.Link.t_move", "Toxi.Link.t_ctlMove", "Toxi.Link.t_new",
+                             "Toxi.Link.same_stageMove", "Toxi.Link.same_sinkMove", "Toxi.Link.same_bufferMove", "Toxi.Link.same_sourceMove"]
+# C15: the graceful end of a connection (Proofs/Lemmas/Graceful.lean)
+def _c15_extra():
+    PROPS["C15"]["lean_modules"] = PROPS["C15"]["lean_modules"] + ["Toxi.Proofs.Lemmas.Graceful"]
+    PROPS["C15"]["theorems"] = PROPS["C15"]["theorems"] + ["Toxi.Link.C15_move_graceful", "Toxi.Link.C15_settle_graceful",
+                                                           "Toxi.Link.C15_graceful_end", "Toxi.Link.GInv_new", "Toxi.Link.GInv_env"]
 PROPS["C14"]["engines"] = PROPS["C14"]["engines"] + [{"engine": "e3", "gotest": True, "args": ["-props", "C14"], "tag": "C14link"}]
 PROPS["C14"]["model_scope"] += "; toxic_collection.go UpdateToxicJson -> chainUpdateToxic -> link.UpdateToxic (restart with a fresh draw) via the link model (E3)"
 PROPS["C11"]["engines"] = PROPS["C11"]["engines"] + [{"engine": "e3", "gotest": True, "args": ["-props", "C11", "-mode", "all"], "tag": "C11link"}]
@@ -237,3 +255,4 @@ for _p, _ts in _TIES.items():
     if _p in PROPS:
         PROPS[_p]["lean_modules"] = list(PROPS[_p]["lean_modules"]) + ["Toxi.Ties"]
         PROPS[_p]["theorems"] = list(PROPS[_p]["theorems"]) + ["Toxi.Ties." + t for t in _ts]
+_c15_extra()
